@@ -436,6 +436,23 @@ def dtype_reaches_decoder(ctx, R="R-C12-expansion"):
             n += 1
             a = c.args[1] if len(c.args) > 1 else astq.kw(c, "dtype")
             ok = isinstance(a, ast.Name) and a.id in g.all_param_names()
+            if ok:
+                # ... and it still holds the caller's value there (not re-bound on a path to the call)
+                try:
+                    cfg_ = CFG(g.node)
+                    rd_ = ReachingDefs(g, cfg_)
+                    defs_ = rd_.reaching(containing_node(cfg_, g, c), a.id)
+                    rebound = [d_ for d_ in defs_ if d_.kind != "param"]
+                    if rebound:
+                        ok = False
+                        a = ast.parse("%s  # re-bound before the call: %s" % (a.id, ""), mode="eval").body if False else a
+                        ctx.bad(R, g, c, "`%s` is re-bound before sphere_read_signal is called (%s): the decoder no longer receives the dtype the caller asked for, "
+                                "expands 8-bit mu-law / A-law codes although a 1-byte dtype was requested, and the later cast wraps the expanded values"
+                                % (a.id, astq.text(getattr(rebound[0], "stmt", None))[:60] if getattr(rebound[0], "stmt", None) is not None else "assignment"),
+                                "the requested dtype is handed to the SPHERE decoder (it decides the G.711 expansion)", robust=True)
+                        continue
+                except Exception:
+                    pass
             ctx.check(ok, R, g, c, "the requested dtype is handed to the SPHERE decoder (it decides the G.711 expansion)",
                       "sphere_read_signal is called with dtype %s: the decoder then expands 8-bit mu-law / A-law codes to 16 bits although a 1-byte dtype was "
                       "requested, and a later cast wraps the expanded values" % (astq.text(a) if a is not None else "<none>"), robust=True)
